@@ -12,6 +12,7 @@ git -C /repo apply $MODE "$DIR/patch.diff"
 ./vcheck "$PID" --tier "$TIER" > /tmp/seedcheck.out 2>&1
 RC=$?
 git -C /repo checkout -- . ; git -C /repo clean -fdq -e target
-grep -E "^VIOLATION|^KNOWN-FINDING" /tmp/seedcheck.out | head -5
+grep -E "^VIOLATION" /tmp/seedcheck.out | head -5
+grep -E "^KNOWN-FINDING" /tmp/seedcheck.out | head -3
 echo "exit=$RC"
 exit 0
